@@ -281,6 +281,16 @@ pub fn k4_shape(s: &str, w: &What) -> Option<K4Shape> {
 /// that starts at the start of a line other than the first is attributed to the end of the
 /// previous line).
 fn check_case(s: &str, w: &What, k4b: bool) -> Result<(), String> {
+    if s.contains(OPEN) || s.contains(CLOSE) {
+        // the input holds the harness' own tag characters (possible under fuzzing only): the
+        // rendering cannot be parsed back; only totality is checked
+        for tagged in [true, false] {
+            if let Err(m) = render(s, w, tagged) {
+                return Err(format!("panic: {}", m));
+            }
+        }
+        return Ok(());
+    }
     let tagged = match render(s, w, true) {
         Err(m) => return Err(format!("panic (custom FormatOption): {}", m)),
         Ok(None) => return Ok(()), // not a valid span/position: nothing to display
